@@ -248,8 +248,11 @@ func ruleForeignByteCallees(w *World, r *Report) {
 					if w.InModule(cal) {
 						continue
 					}
-					name = cal.String()
+					name = foreignName(cal)
 					args = com.Args
+					if _, _, isW := foreignWriter(c, cal); isW {
+						continue // write sites through foreign writers are decided by C12-W
+					}
 				}
 				for i, a := range args {
 					if !isByteSlice(a.Type()) {
